@@ -1,0 +1,98 @@
+//go:build verif
+
+/*
+ * Licensed to the Apache Software Foundation (ASF) under one or more
+ * contributor license agreements.  See the NOTICE file distributed with
+ * this work for additional information regarding copyright ownership.
+ * The ASF licenses this file to You under the Apache License, Version 2.0
+ * (the "License"); you may not use this file except in compliance with
+ * the License.  You may obtain a copy of the License at
+ *
+ *     http://www.apache.org/licenses/LICENSE-2.0
+ *
+ * Unless required by applicable law or agreed to in writing, software
+ * distributed under the License is distributed on an "AS IS" BASIS,
+ * WITHOUT WARRANTIES OR CONDITIONS OF ANY KIND, either express or implied.
+ * See the License for the specific language governing permissions and
+ * limitations under the License.
+ */
+
+package executor
+
+// Verification contracts for property C09 (comment-only, tag verif): a branch rollback never
+// overwrites a foreign write. Row equality (IsRecordsEquals: reflection-based comparison of images)
+// is abstract here - an arbitrary relation that may also fail; what is proved is the three-way
+// decision built on it and that every compensating statement of the three undo executors is issued
+// only after that decision said 'go on'.
+
+//@ ext seata.apache.org/seata-go/pkg/datasource/sql/undo/executor.IsRecordsEquals
+//@   ensures true
+//@ func (*BaseExecutor).queryCurrentRecords
+//@   trusted
+//@   ensures true
+
+// SQL text builders and primary-key ordering: abstract here (string building over the table meta).
+//@ func (*mySQLUndoUpdateExecutor).buildUndoSQL
+//@   trusted
+//@   ensures true
+//@ func (*mySQLUndoDeleteExecutor).buildUndoSQL
+//@   trusted
+//@   ensures true
+//@ func (*mySQLUndoInsertExecutor).buildUndoSQL
+//@   trusted
+//@   ensures true
+//@ func GetOrderedPkList
+//@   trusted
+//@   ensures true
+
+//@ func newMySQLUndoUpdateExecutor
+//@   prop C09
+//@   ensures has-validator: result != nil && result.baseExecutor != nil && result.baseExecutor.sqlUndoLog == sqlUndoLog && result.sqlUndoLog == sqlUndoLog
+//@ func newMySQLUndoDeleteExecutor
+//@   prop C09
+//@   ensures has-validator: result != nil && result.baseExecutor != nil && result.baseExecutor.sqlUndoLog == sqlUndoLog && result.sqlUndoLog == sqlUndoLog
+//@ func newMySQLUndoInsertExecutor
+//@   prop C09
+//@   ensures has-validator: result != nil && result.BaseExecutor != nil && result.BaseExecutor.sqlUndoLog == sqlUndoLog && result.sqlUndoLog == sqlUndoLog
+
+//@ func (*BaseExecutor).dataValidationAndGoOn
+//@   prop C09
+//@   requires b != nil
+//@   let on := undo.UndoConfig.DataValidation
+//@   ensures validation-off: !on ==> result0 && result1 == nil && !called("IsRecordsEquals#1")
+//@   ensures unchanged-needs-no-undo: on && called("IsRecordsEquals#1") && callres("IsRecordsEquals#1", 1) == nil && callres("IsRecordsEquals#1", 0) ==> !result0 && result1 == nil && !called("queryCurrentRecords#1")
+//@   ensures current-is-after-go-on: called("IsRecordsEquals#2") && callres("IsRecordsEquals#2", 1) == nil && callres("IsRecordsEquals#2", 0) ==> result0 && result1 == nil
+//@   ensures current-is-before-stop: called("IsRecordsEquals#3") && callres("IsRecordsEquals#3", 1) == nil && callres("IsRecordsEquals#3", 0) ==> !result0 && result1 == nil
+//@   ensures dirty-fails: called("IsRecordsEquals#3") && callres("IsRecordsEquals#3", 1) == nil && !callres("IsRecordsEquals#3", 0) ==> !result0 && result1 != nil
+//@   ensures errors-propagate: (called("IsRecordsEquals#1") && callres("IsRecordsEquals#1", 1) != nil) || (called("queryCurrentRecords#1") && callres("queryCurrentRecords#1", 1) != nil) || (called("IsRecordsEquals#2") && callres("IsRecordsEquals#2", 1) != nil) || (called("IsRecordsEquals#3") && callres("IsRecordsEquals#3", 1) != nil) ==> !result0 && result1 != nil
+//@   ensures go-on-only-if-current-is-after: on && result0 ==> called("IsRecordsEquals#2") && callres("IsRecordsEquals#2", 0) && callres("IsRecordsEquals#2", 1) == nil
+//@   at call IsRecordsEquals#1: assert compares-before-after: arg_beforeImage == b.sqlUndoLog.BeforeImage && arg_afterImage == b.sqlUndoLog.AfterImage
+//@   at call IsRecordsEquals#2: assert compares-after-current: arg_beforeImage == b.sqlUndoLog.AfterImage && arg_afterImage == callres("queryCurrentRecords#1", 0)
+//@   at call IsRecordsEquals#3: assert compares-before-current: arg_beforeImage == b.sqlUndoLog.BeforeImage && arg_afterImage == callres("queryCurrentRecords#1", 0)
+
+//@ func (*mySQLUndoUpdateExecutor).ExecuteOn
+//@   prop C09
+//@   requires m != nil && conn != nil && m.baseExecutor != nil
+//@   ensures validated-first: ghost.stmts_open != old(ghost.stmts_open) || ghost.execs != old(ghost.execs) || called("PrepareContext#1") ==> called("dataValidationAndGoOn#1")
+//@   ensures validation-error-returned: called("dataValidationAndGoOn#1") && callres("dataValidationAndGoOn#1", 1) != nil ==> result == callres("dataValidationAndGoOn#1", 1) && !called("PrepareContext#1")
+//@   ensures no-write-when-stopped: called("dataValidationAndGoOn#1") && !callres("dataValidationAndGoOn#1", 0) ==> !called("PrepareContext#1") && ghost.execs == old(ghost.execs)
+//@   ensures stop-is-success: called("dataValidationAndGoOn#1") && !callres("dataValidationAndGoOn#1", 0) && callres("dataValidationAndGoOn#1", 1) == nil ==> result == nil
+//@   at call PrepareContext#1: assert same-conn: called("dataValidationAndGoOn#1") && callarg("dataValidationAndGoOn#1", 2) == conn
+
+//@ func (*mySQLUndoDeleteExecutor).ExecuteOn
+//@   prop C09
+//@   requires m != nil && conn != nil && m.baseExecutor != nil
+//@   ensures validated-first: ghost.stmts_open != old(ghost.stmts_open) || ghost.execs != old(ghost.execs) || called("PrepareContext#1") ==> called("dataValidationAndGoOn#1")
+//@   ensures validation-error-returned: called("dataValidationAndGoOn#1") && callres("dataValidationAndGoOn#1", 1) != nil ==> result == callres("dataValidationAndGoOn#1", 1) && !called("PrepareContext#1")
+//@   ensures no-write-when-stopped: called("dataValidationAndGoOn#1") && !callres("dataValidationAndGoOn#1", 0) ==> !called("PrepareContext#1") && ghost.execs == old(ghost.execs)
+//@   ensures stop-is-success: called("dataValidationAndGoOn#1") && !callres("dataValidationAndGoOn#1", 0) && callres("dataValidationAndGoOn#1", 1) == nil ==> result == nil
+//@   at call PrepareContext#1: assert same-conn: called("dataValidationAndGoOn#1") && callarg("dataValidationAndGoOn#1", 2) == conn
+
+//@ func (*mySQLUndoInsertExecutor).ExecuteOn
+//@   prop C09
+//@   requires m != nil && conn != nil && m.BaseExecutor != nil
+//@   ensures validated-first: ghost.stmts_open != old(ghost.stmts_open) || ghost.execs != old(ghost.execs) || called("PrepareContext#1") ==> called("dataValidationAndGoOn#1")
+//@   ensures validation-error-returned: called("dataValidationAndGoOn#1") && callres("dataValidationAndGoOn#1", 1) != nil ==> result == callres("dataValidationAndGoOn#1", 1) && !called("PrepareContext#1")
+//@   ensures no-write-when-stopped: called("dataValidationAndGoOn#1") && !callres("dataValidationAndGoOn#1", 0) ==> !called("PrepareContext#1") && ghost.execs == old(ghost.execs)
+//@   ensures stop-is-success: called("dataValidationAndGoOn#1") && !callres("dataValidationAndGoOn#1", 0) && callres("dataValidationAndGoOn#1", 1) == nil ==> result == nil
+//@   at call PrepareContext#1: assert same-conn: called("dataValidationAndGoOn#1") && callarg("dataValidationAndGoOn#1", 2) == conn
